@@ -156,11 +156,26 @@ func (c *Ctx) objFamName(T types.Type) string {
 		_ = u
 		return typeName(T)
 	}
-	return typeName(T.Underlying())
+	if b, ok := T.(*types.Basic); ok {
+		switch b.Kind() {
+		case types.Uint8:
+			return "uint8"
+		case types.Int32:
+			return "int32"
+		}
+	}
+	return runeWord.ReplaceAllString(byteWord.ReplaceAllString(typeName(T.Underlying()), "uint8"), "int32")
 }
 
 func (c *Ctx) elemFamName(E types.Type) string {
 	if b, ok := E.Underlying().(*types.Basic); ok {
+		// byte/uint8 and rune/int32 are the same types: one heap family each
+		switch b.Kind() {
+		case types.Uint8:
+			return "uint8"
+		case types.Int32:
+			return "int32"
+		}
 		return b.Name()
 	}
 	if _, ok := E.Underlying().(*types.Pointer); ok {
